@@ -90,8 +90,85 @@ def s1(prog, rep):
                     rep.check(not extra, "S1-sign", "the sign test in %s covers every non-zero value" % f.name, b.cond.where,
                               "the test of the '-' sign is reached only when %s: a negative numeral whose negation falls outside that range is still accepted "
                               "(e.g. -18446744073709551615 -> 1)" % ", ".join("val %s %s" % x for x in extra), function=f.name, construct="sign-coverage")
+            # the sign is looked for where the conversion looks for it: strto* skip exactly the isspace() characters first, so the
+            # manual scan must skip exactly those before it tests for '-'
+            if ok:
+                for b in f.blocks.values():
+                    if b.cond is None:
+                        continue
+                    for op, L, R, Le, _ in cond_atoms(b.cond, True):
+                        if not (R == ("c", ord("-")) and op in ("==", "!=") and L[0] in ("*", "[]")):
+                            continue
+                        pv = root_var(L)
+                        steps = [e for e in f.all_elems() if ir.step(e) and ir.step(e)[1] == pv and f.dominates(e, b.cond) is not None]
+                        skip = []
+                        for e in steps:
+                            for cond, truth in f.edge_conds(e):
+                                if truth and _classifier(cond):
+                                    skip.append(_classifier(cond))
+                        okw = skip == ["isspace"] or set(skip) == {"isspace"}
+                        rep.check(okw, "S1-sign", "the sign is tested after skipping exactly the isspace() characters in %s" % f.name, b.cond.where,
+                                  "classifiers guarding the scan before the sign test: %s; the conversion skips isspace() characters, so \"\\n-1\" reaches it with the "
+                                  "sign unseen unless the scan skips the same set" % (skip or "none"), function=f.name, construct="sign-skip")
+                        break
     if not seen:
         rep.defer_broken("S1: no unsigned conversion found (parsenum_unsigned gone?)")
+
+
+
+def s4_format(prog, rep):
+    """humansize() prints two or three significant digits: in the scaled branch the value kept in tenths of the unit is
+    within 10..9999 when it is printed (so the integer part has at most three digits and at least one), the one-decimal form is
+    used exactly below 100 tenths, and the digits printed are size / 10 and size % 10.  Bounds decided relationally (sa/poly.py)."""
+    from .. import poly
+    from ..poly import Lin
+    u = prog.unit("util/humansize.c")
+    f = u.func("humansize")
+    if f is None:
+        raise cdb.AnalysisBroken("anchor missing: humansize")
+    sz = ("v", f.params[0]["name"], f.params[0]["id"])
+    A = poly.Analysis(f, quiet={"asprintf", "warnp", "libcperciva_asprintf"}, unsigned_terms={sz}).run()
+    S = Lin.var(sz)
+    calls = [c for c in f.calls() if c.callee in ("asprintf", "libcperciva_asprintf")]
+    n = 0
+    for c in calls:
+        fmt = c.arg(1).strip().strv if c.arg(1) is not None and c.arg(1).strip().strv is not None else b""
+        fmt = fmt.rstrip(b"\0").decode("latin1")
+        st = A.state_before(c)
+        if "%c" not in fmt:
+            ok = fmt == "%d B" and A.holds(st, "<=", S, Lin.const(999))
+            rep.check(ok, "S4-format", "sizes below 1000 are printed in bytes", c.where, "format %r" % fmt, function=f.name, construct="fmt-bytes")
+            continue
+        n += 1
+        lo, hi = A.holds(st, ">=", S, Lin.const(10)), A.holds(st, "<=", S, Lin.const(9999))
+        dec = fmt == "%d.%d %cB"
+        rng = A.holds(st, "<=", S, Lin.const(99)) if dec else (fmt == "%d %cB" and A.holds(st, ">=", S, Lin.const(100)))
+        args = [show(norm(a)).replace(" ", "") for a in c.args[2:]]
+        shape = args[:2] == ["(size/10)", "(size%10)"] if dec else args[:1] == ["(size/10)"]
+        rep.check(lo and hi and rng and shape, "S4-format", "scaled value printed with %s significant digits" % ("two" if dec else "two or three"), c.where,
+                  "tenths-of-unit value within 10..9999 at the print: >= 10 %s, <= 9999 %s; branch range %s; digit arguments %s" % (lo, hi, rng, args),
+                  function=f.name, construct="fmt-scaled:" + fmt)
+    if n != 2:
+        rep.defer_broken("S4: expected two scaled print statements in humansize")
+
+
+CLASSIFIERS = ("isspace", "isblank", "isdigit", "isalpha", "isalnum", "isprint", "ispunct", "isgraph", "iscntrl", "isxdigit", "isupper", "islower")
+
+
+def _classifier(cond):
+    """Name of the <ctype.h> classifier a condition element applies (macro expansion or call), or None."""
+    stack = [cond]
+    while stack:
+        e = stack.pop()
+        if e is None:
+            continue
+        for m in e.macro:
+            if m in CLASSIFIERS:
+                return m
+        if e.cls == "CallExpr" and e.callee in CLASSIFIERS:
+            return e.callee
+        stack.extend(e.kids)
+    return None
 
 
 def _canon(atom):
@@ -281,6 +358,7 @@ def run(tier):
     s1(prog, rep)
     s2(prog, rep)
     s3(prog, rep)
+    s4_format(prog, rep)
     rep.require_min("S1-sign", 1)
     rep.require_min("S2-sibling", 12)
     rep.require_min("S3-arith", 4)
